@@ -1,0 +1,15 @@
+//go:build verif
+
+package actionlint
+
+// VerifCacheHook, when set, is called by LocalActionsCache.FindMetadata (kind "action") and
+// LocalReusableWorkflowCache.FindMetadata (kind "workflow") after the lookup of spec missed the
+// cache and before the file is read, i.e. between the two critical sections of a lookup (property
+// C10). It must be set before the linter runs and is called from the goroutines linting the files.
+var VerifCacheHook func(kind, spec string)
+
+func verifCachePoint(kind, spec string) {
+	if h := VerifCacheHook; h != nil {
+		h(kind, spec)
+	}
+}
